@@ -194,17 +194,18 @@ def show(v, depth=0):
 # ---- path state ----------------------------------------------------------------
 
 class Frame:
-    __slots__ = ("fid", "body", "locals", "bb", "ret_dest", "ret_target", "visits", "post")
+    __slots__ = ("fid", "body", "locals", "bb", "ret_dest", "ret_target", "visits", "post", "ctx")
 
-    def __init__(self, fid, body, locals_, ret_dest=None, ret_target=None, post=None):
+    def __init__(self, fid, body, locals_, ret_dest=None, ret_target=None, post=None, ctx=""):
         self.fid, self.body, self.locals = fid, body, locals_
+        self.ctx = ctx            # where this (inlined) frame was entered: call site and widening state of the callers
         self.bb = 0
         self.ret_dest, self.ret_target = ret_dest, ret_target
         self.visits = {}
         self.post = post          # applied to the returned value before it is stored (std combinator models)
 
     def copy(self):
-        f = Frame(self.fid, self.body, dict(self.locals), self.ret_dest, self.ret_target, self.post)
+        f = Frame(self.fid, self.body, dict(self.locals), self.ret_dest, self.ret_target, self.post, self.ctx)
         f.bb = self.bb
         f.visits = dict(self.visits)
         return f
@@ -318,7 +319,15 @@ class Interp:
         loc = {}
         for i, a in enumerate(args):
             loc[i + 1] = a
-        path.frames.append(Frame(fid, body, loc, ret_dest, ret_target, post))
+        ctx = ""
+        if path.frames:
+            # an inlined frame is identified by its call site and by how many loops of the caller were already widened there:
+            # the same helper entered in the first and in the general trip of a loop (or at two call sites) gets distinct
+            # unknowns, so that a decision about one instance is not silently reused for the other; the name is the same on
+            # sibling paths
+            caller = path.frames[-1]
+            ctx = "%s_c%dw%d" % (caller.ctx, caller.bb, sum(1 for wk in path.widened if wk[0] == caller.fid))
+        path.frames.append(Frame(fid, body, loc, ret_dest, ret_target, post, ctx))
 
     def frame_by_id(self, path, fid):
         for f in path.frames:
@@ -624,7 +633,7 @@ class Interp:
                     path.widened.add(wk)
                     blocks, assigned = li[bi]
                     for L in assigned:
-                        frame.locals[L] = Unknown("loop:%s:bb%d:_%d" % (body["path"].split("::")[-1], bi, L))
+                        frame.locals[L] = Unknown("loop:%s%s:bb%d:_%d" % (body["path"].split("::")[-1], frame.ctx, bi, L))
                     # memory behind opaque references that the first trip changed may change on every trip
                     h0 = path.loop_heap.get(wk, {})
                     for hk, hv in list(path.heap.items()):
